@@ -1,7 +1,7 @@
 """C14 Sorted searches and PREVIOUS/NEXT/RANK agree with a linear scan (exhaustive enumeration).
 
 Every table T(s:Any, g:Text) of <= 3 rows (quick) / <= 4 rows (thorough) with sort values from
-{1, 2, None, 'a', 1.5} (sequences over the domain, so duplicates and mixed types occur) and group
+{1, 2, None, 'a', 1.5, [5]} (sequences over the domain, so duplicates and mixed types occur) and group
 values {x, y} is loaded into a fresh document that already holds
 
  * in T: PREVIOUS / NEXT / RANK asc / RANK desc formula columns for order_by "s", "-s", ("g", "s"),
@@ -30,9 +30,10 @@ from mc import harness as H
 from mc.enumprop import Enum, PartReport, part_of, pmap
 
 LEVEL = 'exploration'
-SVALS = (1, 2, None, 'a', 1.5)
+LISTV = ['L', 5]      # an encoded list: a second non-numeric type ('list' sorts before 'str')
+SVALS = (1, 2, None, 'a', 1.5, LISTV)
 GVALS = ('x', 'y')
-SPROBES = (None, 0, 1, 1.2, 1.5, 1.7, 2, 3, 'A', 'a', 'b')
+SPROBES = (None, 0, 1, 1.2, 1.5, 1.7, 2, 3, 'A', 'a', 'b', LISTV)
 GPROBES = ('w', 'x', 'y', 'z')
 OPS = ('lt', 'le', 'gt', 'ge', 'eq')
 
@@ -103,6 +104,8 @@ def vkey(v):
     return (0,)
   if isinstance(v, (int, float)):
     return (1, v)
+  if isinstance(v, list):              # encoded ['L', ...] cell: a Python list in the engine
+    return (2, 'list', tuple(v[1:]))
   return (2, type(v).__name__, v)
 
 
